@@ -317,4 +317,68 @@ impl<'a> Obs<'a> {
         }
         out
     }
+
+    /// C16: custom joiner invoked exactly once per executed step with more than one active branch,
+    /// with exactly those branches in branch order (argument p evaluates the p-th active branch),
+    /// never for a single active branch; with lazy branches nothing of a branch runs before the
+    /// joiner calls its thunk; futures shim join! / try_join! used once per such step
+    pub fn joiner(&self) -> Vec<Violation> {
+        let mut out = Vec::new();
+        let kind = self.prog.kind();
+        let jid = crate::joiners::JOINER_ID;
+        let executed = self.exp.steps.len();
+        let multi_steps: Vec<usize> = (0..executed).filter(|s| self.prog.active(*s).len() > 1).collect();
+        if self.prog.opts.joiner.is_some() {
+            let enters: Vec<&Ev> = self.events.iter().filter(|e| e.id == jid && e.k == K::Joiner && e.tag == 0).collect();
+            let arities: Vec<usize> = enters.iter().map(|e| e.h as usize).collect();
+            let want: Vec<usize> = multi_steps.iter().map(|s| self.prog.active(*s).len()).collect();
+            if arities != want {
+                out.push(v("joiner", format!("joiner invocations had arities {:?}; expected one per step with > 1 active branches: {:?} (steps {:?})", arities, want, multi_steps)));
+                return out;
+            }
+            // per invocation: marks, and what runs between them
+            for (k, s) in multi_steps.iter().enumerate() {
+                let act = self.prog.active(*s);
+                let start = enters[k].seq;
+                let end = self.events.iter().find(|e| e.id == jid && e.k == K::Joiner && e.tag == 2 && e.seq > start).map(|e| e.seq).unwrap_or(u64::MAX);
+                let marks: Vec<(u64, usize)> = self.events.iter().filter(|e| e.id == jid && e.k == K::Joiner && e.tag == 1 && e.seq > start && e.seq < end).map(|e| (e.seq, e.h as usize)).collect();
+                let mut seen: Vec<usize> = marks.iter().map(|m| m.1).collect();
+                seen.sort();
+                if seen != (0..act.len()).collect::<Vec<_>>() {
+                    out.push(v("joiner", format!("step {}: joiner evaluated arguments {:?}, expected each of 0..{} once", s, marks.iter().map(|m| m.1).collect::<Vec<_>>(), act.len())));
+                    continue;
+                }
+                // sequential sync macros: everything a branch does in this step (outside the capture
+                // phase) happens while *its* argument is being evaluated
+                if !kind.is_async && !kind.is_spawn {
+                    let cap_ids: Vec<u32> = self.exp.steps[*s].caps.iter().map(|e| e.id).collect();
+                    for e in self.events {
+                        let Some((b, es)) = self.loc(e.id) else { continue };
+                        if es != *s || b == usize::MAX || cap_ids.contains(&e.id) {
+                            continue;
+                        }
+                        if !matches!(e.k, K::Init | K::Op | K::Call) {
+                            continue;
+                        }
+                        // which mark interval is it in?
+                        let pos = marks.iter().filter(|m| m.0 < e.seq).max_by_key(|m| m.0).map(|m| m.1);
+                        let want_pos = act.iter().position(|x| *x == b);
+                        if e.seq < start || e.seq > end || pos != want_pos {
+                            out.push(v(
+                                "joiner",
+                                format!("step {}: {} of branch {} ran {} (argument {:?} of the joiner was being evaluated), expected inside argument {:?}", s, e.short(), b, if e.seq < start { "before the joiner was invoked" } else { "inside the joiner" }, pos, want_pos),
+                            ));
+                            break;
+                        }
+                    }
+                }
+            }
+        } else if self.prog.opts.futures_path.as_deref() == Some("::jvrt::fx") {
+            let n = self.events.iter().filter(|e| e.id == jid && e.k == K::Fx).count();
+            if n != multi_steps.len() {
+                out.push(v("joiner", format!("futures shim join!/try_join! used {} times, expected once per step with > 1 active branches ({})", n, multi_steps.len())));
+            }
+        }
+        out
+    }
 }
